@@ -116,8 +116,8 @@ def correspond(ctx, corr, model_ok):
         corr.evaluations += 1
     corr.oracle_failures.extend(routed_oracle())
     corr.count('routed responder (future / task) cancelled', 4)
-    corr.oracle_failures.extend(graphql_oracle())
-    corr.count('GraphQL subscription abandoned by its consumer', 2)
+    from harness import battery as _b
+    _b.run(corr, ['graphql-subscription'])
     from harness.props import c20
     corr.oracle_failures.extend(c20.disposal_oracle())
     corr.count('Rx clients: observer disposed at every moment (subscribing turn .. after the last element)', 78)
